@@ -588,16 +588,21 @@ impl From<Vec<usize>> for Seq<text::Dna> {
 /// **Unstable** construct a `Seq` from a bitslice. This may change in the future.
 impl<A: Codec> From<&Bs> for Seq<A> {
     fn from(bs: &Bs) -> Self {
+        // copy into a fresh vector so the owned sequence starts at bit 0 of word 0
+        let mut bv = Bv::with_capacity(bs.len());
+        bv.extend_from_bitslice(bs);
         Seq {
             _p: PhantomData,
-            bv: bs.into(),
+            bv,
         }
     }
 }
 
 /// **Unstable** construct a `Seq` from a bitvec. This may change in the future.
 impl<A: Codec> From<Bv> for Seq<A> {
-    fn from(bv: Bv) -> Self {
+    fn from(mut bv: Bv) -> Self {
+        // a bit vector may begin part way into its first word; move it to bit 0 of word 0
+        bv.force_align();
         Seq {
             _p: PhantomData,
             bv,
